@@ -1406,6 +1406,19 @@ func ExistExpr(query *Query, current Map, expr *sqlparser.ExistsExpr, opts ...Ex
 	return len(array) > 0, err
 }
 
+// protectedCall runs a function on a goroutine of its own (ASYNC, SPIN, SPINASYNC).
+// A panic there cannot be recovered by the caller of Exec and would terminate the
+// process, so it is turned into an error
+func protectedCall(function Function, query *Query, current Map, args []any) (rs any, err error) {
+	defer func() {
+		if r := recover(); r != nil {
+			rs = nil
+			err = panicToError(r)
+		}
+	}()
+	return function(query, current, nil, args)
+}
+
 func FunExpr(query *Query, current Map, expr *sqlparser.FuncExpr, opts ...ExprOption) (any, error) {
 	name := expr.Name.Lowered()
 
@@ -1445,7 +1458,7 @@ func FunExpr(query *Query, current Map, expr *sqlparser.FuncExpr, opts ...ExprOp
 			query.wg.Add(1)
 			go func() {
 				var err error
-				rs, err = function(query, current, nil, slice)
+				rs, err = protectedCall(function, query, current, slice)
 				if err != nil {
 					if query.options.errors != nil {
 						query.options.errors(err)
@@ -1465,7 +1478,7 @@ func FunExpr(query *Query, current Map, expr *sqlparser.FuncExpr, opts ...ExprOp
 				return nil, e
 			}
 			go func() {
-				_, err := function(query, current, nil, slice)
+				_, err := protectedCall(function, query, current, slice)
 				if err != nil {
 					if query.options.errors != nil {
 						query.options.errors(err)
@@ -1486,7 +1499,7 @@ func FunExpr(query *Query, current Map, expr *sqlparser.FuncExpr, opts ...ExprOp
 			query.pending = true
 			query.wg.Add(1)
 			go func() {
-				_, err := function(query, current, nil, slice)
+				_, err := protectedCall(function, query, current, slice)
 				if err != nil {
 					if query.options.errors != nil {
 						query.options.errors(err)
